@@ -980,6 +980,22 @@ def run(ctx):
                    "harness/props/c06.py, c06_geom.py (generators, brute-force oracle, Coq term printer)",
                    "IEEE-754 arithmetic of numpy (rounded; model exact over Q); libm cos / sin taken as exact rationals"]
     mod = __import__("props.c06", fromlist=["x"])
+    ctx.trusted.insert(3, "harness/props/cache_src.py: parser of the syntax trees of the public setters of Rectangle / Circle / Polygon (geometry/shape.py) "
+                          "into rows (store / drop / rebuild, in order; conditional tail) of the table of coq/Model/CacheTable.v, "
+                          "with dependency lists derived from what the filling code reads, regenerated on every run as "
+                          "coq/Gen/Src_cachetable.v (fail-closed); C06_rectangle_setters_are_source / C06_circle_setters_are_source / C06_polygon_setters_are_source instantiate the generic theorem of "
+                          "Proofs/CacheTable.v (every history of checked setters and queries is coherent and answers as a "
+                          "fresh object) with the parsed tables, whose check is evaluated by the kernel; trusted: the parser, "
+                          "its SPECS (which attributes are primary / derived and where the derived ones are filled), and that "
+                          "a rebuild stores the value a fresh object computes (observed by the correspondence)")
+    from props import cache_src
+    try:
+        changed = cache_src.generate()
+        ctx.notes.append(f"Gen/Src_cachetable.v regenerated from the source ({'changed' if changed else 'unchanged'})")
+    except Exception as e:   # SourceShapeError, SyntaxError, OSError: the tables are no longer shown to be the source's
+        ctx.proof_breaks.append({"theorem": "source parser:Gen/Src_cachetable.v (C06_rectangle_setters_are_source / C06_circle_setters_are_source / C06_polygon_setters_are_source)",
+                                 "where": "harness/props/cache_src.py", "log": str(e)})
+        ctx.log(f"proof_broken theorem=C06_*_setters_are_source (source parser: {e})")
     try:
         ctx.build_props(extra_targets=["Corr/C06Cache.vo"])
         if ctx.tier == "thorough":
